@@ -268,3 +268,25 @@ pub fn byte_mutate(text: &str, rng: &mut Rng) -> String {
     }
     s
 }
+
+/// An edit that keeps the byte length (a buffer or file overwritten in place): one character of a word
+/// token (identifier, keyword, number) is replaced by another word character.  None if there is no word.
+pub fn same_length_edit(text: &str, rng: &mut Rng) -> Option<String> {
+    let (toks, _) = lexer::lex(text);
+    let words: Vec<Tok> = toks.iter().filter(|t| t.k == K::Word).cloned().collect();
+    if words.is_empty() {
+        return None;
+    }
+    let t = *rng.pick(&words);
+    let q = t.s + rng.below(t.e - t.s);
+    let old = text.as_bytes()[q];
+    let new = loop {
+        let c = *rng.pick(&[b'a', b'e', b'q', b'x', b'z', b'_', b'0', b'1', b'7']);
+        if c != old && !(q == t.s && c.is_ascii_digit() && !old.is_ascii_digit()) {
+            break c;
+        }
+    };
+    let mut b = text.as_bytes().to_vec();
+    b[q] = new;
+    String::from_utf8(b).ok()
+}
